@@ -427,6 +427,8 @@ pub struct Rho {
     pub classes: BTreeMap<JStr, RhoClass>,
     /// direct super types (super class first, then interfaces, duplicates removed) of the classes IN THE JAR
     pub supers: BTreeMap<JStr, Vec<JStr>>,
+    /// sensitivity self-test only (`VERIF_C07_PERTURB=<probe name>`): the reference does NOT rename this position
+    pub skip: Option<Pos>,
 }
 
 /// where a member lookup found its answer
@@ -457,7 +459,7 @@ impl Rho {
             }
             classes.insert(JStr::from_str(k), rc);
         }
-        Rho { classes, supers }
+        Rho { classes, supers, skip: None }
     }
 
     /// class: table lookup, else unchanged
@@ -582,6 +584,9 @@ impl<'a> Renamer<'a> {
         }
     }
     fn member(&mut self, pos: Pos, m: &mut MemberRef, field: bool) {
+        if self.rho.skip == Some(pos) {
+            return;
+        }
         let before = m.clone();
         if m.owner.as_bytes().first() == Some(&b'[') {
             // ADOPTED: a member reference whose owner is an array class keeps name AND descriptor as they are;
@@ -605,6 +610,9 @@ impl<'a> Renamer<'a> {
 }
 impl RefVisitor for Renamer<'_> {
     fn class(&mut self, pos: Pos, c: &mut JStr) {
+        if self.rho.skip == Some(pos) {
+            return;
+        }
         let n = self.rho.map_class_any(c);
         if n != *c {
             self.count(pos.probe());
@@ -623,6 +631,9 @@ impl RefVisitor for Renamer<'_> {
         }
     }
     fn desc(&mut self, pos: Pos, d: &mut JStr) {
+        if self.rho.skip == Some(pos) {
+            return;
+        }
         let n = self.rho.map_desc(d);
         if n != *d {
             self.count(pos.probe());
@@ -630,6 +641,9 @@ impl RefVisitor for Renamer<'_> {
         }
     }
     fn field_decl(&mut self, this: &JStr, name: &mut JStr, desc: &mut JStr) {
+        if self.rho.skip == Some(Pos::FieldDecl) {
+            return;
+        }
         let (n, d, h) = self.rho.map_field(this, name, desc);
         self.hit(h);
         if n != *name || d != *desc {
@@ -639,6 +653,9 @@ impl RefVisitor for Renamer<'_> {
         *desc = d;
     }
     fn method_decl(&mut self, this: &JStr, name: &mut JStr, desc: &mut JStr) {
+        if self.rho.skip == Some(Pos::MethodDecl) {
+            return;
+        }
         let (n, d, h) = self.rho.map_method(this, name, desc);
         self.hit(h);
         if n != *name || d != *desc {
@@ -654,6 +671,9 @@ impl RefVisitor for Renamer<'_> {
         self.member(pos, m, false)
     }
     fn enclosing_method(&mut self, class: &mut JStr, method: &mut Option<(JStr, JStr)>) {
+        if self.rho.skip == Some(Pos::EnclosingMethod) {
+            return;
+        }
         let before = (class.clone(), method.clone());
         match method {
             Some((n, d)) => {
@@ -691,6 +711,9 @@ impl RefVisitor for Renamer<'_> {
         }
     }
     fn record_component(&mut self, _this: &JStr, _name: &mut JStr, desc: &mut JStr) {
+        if self.rho.skip == Some(Pos::RecordComponent) {
+            return;
+        }
         // the component name is not a reference by JVMS; see `tolerate` for the alternative that is also accepted
         let d = self.rho.map_desc(desc);
         if d != *desc {
@@ -699,6 +722,9 @@ impl RefVisitor for Renamer<'_> {
         *desc = d;
     }
     fn signature(&mut self, pos: Pos, s: &mut JStr) {
+        if self.rho.skip == Some(pos) {
+            return;
+        }
         if let Some(r) = rename_signature(s, self.rho) {
             if r.text != *s {
                 self.count(if pos == Pos::LocalVarSig { Pos::LocalVarSig.probe() } else { Pos::Signature.probe() });
